@@ -211,6 +211,11 @@ HASHSEED_PROGRAMS = [
             for i in range(6)),
     # one string value with two spellings in the original (restoration of the original spelling)
     "a = 'spam eggs'\nb = \"spam eggs\"\nc = 'x'\nif c == None:\n    print(a, b, 'spam eggs')\n",
+    # ... and with a tie between the spellings (one occurrence each), while a rule rewrites code that contains the value
+    'import sys\n\nBANNER = """ready"""\n\n\ndef is_ready(state):\n    if state == "ready":\n        return True\n    return False\n\n\n'
+    'sys.stdout.write(f"{is_ready(BANNER)} {is_ready(\'busy\')}\\n")\n',
+    'MODE = "str" "ict"\n\n\ndef check(mode):\n    if mode == "strict":\n        return True\n    else:\n        return False\n\n\nprint(check(MODE), check(\'lax\'))\n',
+    "def pick(k):\n    if k == 'alpha beta':\n        return True\n    return False\n\n\nA = r'alpha beta'\nB = \"\"\"alpha beta\"\"\"\nC = \"alpha beta\"\nprint(pick(A), pick(B), pick(C))\n",
     # order-dependent narrowing over a set of condition nodes
     "ys = [x for x in range(100) if x > 3 if x > 5 if x > 7 if x > 9]\nzs = [x for x in range(50) if x < 40 if x < 30 if x >= 2 if x > 4]\nprint(ys, zs)\n",
     "import os\nimport sys\nimport re\nimport json\nfrom typing import List, Dict, Set\n\nprint(os.sep)\n",
@@ -225,7 +230,7 @@ HASHSEED_PROGRAMS = [
 ]
 
 
-def ob_hashseed():
+def ob_hashseed(programs=None):
     import os
     import subprocess
     import sys
@@ -239,7 +244,7 @@ def ob_hashseed():
             "import pyrefact; sys.stdout.write(pyrefact.format_code(sys.stdin.read()))")
     bad = []
     n = 0
-    for prog in HASHSEED_PROGRAMS:
+    for prog in (HASHSEED_PROGRAMS if programs is None else [HASHSEED_PROGRAMS[i] for i in programs]):
         outs = set()
         for seed in ("0", "1", "2", "3", "5", "8", "13", "21"):
             env = dict(os.environ, PYTHONHASHSEED=seed)
@@ -287,7 +292,9 @@ def obligations(tier, seed):
         obs.append(Obligation("files/%d/%s/p%d/c%d" % (nf, "".join(map(str, order)), mp_, nc), ob_files,
                               {"order": order, "max_passes": mp_, "n_cores": nc, "nfiles": nf}, hard_timeout=300,
                               sample={"file_order": order, "max_passes": mp_, "n_cores": nc}))
-    obs.append(Obligation("hashseed-witness", ob_hashseed, {}, hard_timeout=900, sample={"programs": len(HASHSEED_PROGRAMS)}))
+    for i in range(len(HASHSEED_PROGRAMS)):
+        obs.append(Obligation("hashseed-witness/%d" % i, ob_hashseed, {"programs": [i]}, hard_timeout=900,
+                              sample={"program": HASHSEED_PROGRAMS[i][:200]}))
     return obs
 
 
@@ -385,5 +392,6 @@ def replay(case):
             sum(1 for c in calls if c == str(f)) != sum(1 for q in range(p["max_passes"]) if exp_calls[(str(f), q)]) for f in FILES)
         return {"reproduced": bad, "detail": "format_files(order=%s, max_passes=%d, n_cores=%d): returned %r (sequential model %r), "
                                              "calls %s" % (p["order"], p["max_passes"], p["n_cores"], ret, exp_ret, calls)}
-    d = ob_hashseed()
+    idx = [i for i, prog in enumerate(HASHSEED_PROGRAMS) if prog == case.get("program")]
+    d = ob_hashseed(idx or None)
     return {"reproduced": d["status"] == "refuted", "detail": str(d["cexs"])[:400]}
